@@ -189,6 +189,20 @@ PROPS = {
 }
 
 
+def _lr_loop_by_disambiguation(v, ctx):
+    """Signature of C15-F2: disambiguation took effect for this table (the raw dump of the
+    same grammar/table type has conflict cells) AND the specification itself says the table
+    loops: Table.EpsLoops is non-empty (TLC on the dumped table) or MCI_LR, exploring
+    LRRuntime over this very table, reports a run that never shifts."""
+    tid = v["id"].split("+lay:")[0] + ("|" + v["id"].rsplit("|", 1)[1] if "+lay:" in v["id"] else "")
+    nodis = ctx.res.get("tables", {}).get("nodis", {}).get(tid if "+lay:" in v["id"] else v["id"])
+    if nodis is not False:
+        return False
+    eps = any(w["id"] == v["id"] and w.get("epsloop", 0) > 0 for w in ctx.res.get("lr", {}).get("wf", []))
+    mci = any(r["id"] == v["id"] and r["what"] == "hang" for r in ctx.res.get("mci_lr", {}).get("verdicts", []))
+    return eps or mci
+
+
 def known_match(prop, v, ctx):
     """Returns the finding id if the violation matches a committed signature."""
     for f in run.load_known().get("findings", []):
@@ -209,7 +223,10 @@ def known_match(prop, v, ctx):
         if "min_solutions" in sig and not (v.get("n") or 0) >= sig["min_solutions"]:
             continue
         pred = sig.get("pred")
-        if pred and not stages.PREDICATES[pred](v, ctx):
+        if pred == "lr_loop_by_disambiguation":
+            if not _lr_loop_by_disambiguation(v, ctx):
+                continue
+        elif pred and not stages.PREDICATES[pred](v, ctx):
             continue
         return f["id"]
     return None
